@@ -15,6 +15,7 @@ CLAIMS = {
     "C03": ("Theorems for every possible outcome of the model of nuts::draw (all weights, U-turn / divergence / error predicates, options): tree is a 2^depth block containing start and draw, depth <= maxdepth, step-count bounds, |index| bound, draw was reached and no state inside the returned tree diverged, exact characterisation of the maxdepth flag, divergence lies outside the returned tree, dim 0; correspondence with the real tree builder under scripted RNG and faults + implementation-side audit of every draw.", "3 C03"),
     "C06": ("Coq theorems over the executable schedule model (tuning flag exact, transformation frozen from the final window, step-size state frozen after warmup, new() total on num_tune 0..2000) + correspondence of the model with all six presets through the public API and read accessors; two genuine defects were repaired by fix: commits", "3 C06"),
     "C09": ("Coq theorems over the executable schedule model (foreground estimator holds only the last two windows, switch iff full window and next window fits, windows grow, first change re-runs the search, late statistic) + full-state correspondence per draw and a bit-exact binary64 check of which acceptance statistic advanced the adaptation", "3 C09"),
+    "C04": ("PARTIAL. Theorems: the post-warmup kernel is frozen (C06), satisfies detailed balance on every orbit (C01) and hence maps target-weighted mixtures of start states to target weights (summed balance), the orbit is the same from any of its states (reversibility, C02), every trajectory starts with a fresh block of dim standard-normal outputs disjoint from all others. Tie: scripted normal vectors are the start velocities bit for bit. The statement 'matches known posteriors within Monte-Carlo error' is statistical and is only SEARCHED (moments of 300+600-draw runs of the four NUTS preset/kinetic combinations on Gaussian targets within 8-sigma bands), not proved.", "3 C04"),
     "C05": ("Theorems for every outcome of the tree-builder model under arbitrary fault predicates: a divergent evaluation ends the transition at once and is reported, an unrecoverable one makes the call return Err, at most one faulty evaluation per transition and it is the last, the returned draw and every state of the returned tree are valid states, no-fault runs raise no flag, random_bool arguments are probabilities; binary64 divergence predicate total on NaN/inf. Tie: scripted-orbit correspondence under injected faults + fault sweep (kind x evaluation index) over presets through the public API. One genuine defect repaired (step-size search discarded unrecoverable errors).", "3 C05"),
     "C07": ("Theorems over the exact-arithmetic model of dual averaging / Adam / the initial search: monotonicity in the acceptance history, upper bound ln(max_step_size) and finite lower bound, averaged step = documented weighted average (weights a distribution), Adam direction = sign of the smoothed acceptance error with its closed form, search brackets the target and evaluates <= 101 steps, acceptance statistics in [0,1]. Tie: bit-exact correspondence of the binary64 recurrences with DualAverage / Adam driven open loop + monotonicity/bound audits on the implementation. Partial: closed-loop acceptance near target is statistical, not a theorem.", "3 C07"),
     "C08": ("Theorems: running mean exact, the variance accumulator is a quadratic form (scaling), zero iff constant, the diagonal update recovers mean and variance of a Gaussian coordinate exactly from any non-constant set of draws and whitens it (gradient = -position); binary64: for every bit pattern the scale-update kernels keep scales finite and strictly positive (clamp limits 1e-20/1e20), invalid estimates keep the previous value; necessity of the magnitude condition refuted for subnormal limits. Tie: bit-exact kernel correspondence on degenerate inputs + closed-loop exactness audit on Gaussians for diag and low-rank adaptation. Partial: the faer pipeline of the low-rank estimator is audited, not modelled.", "3 C08"),
@@ -24,7 +25,8 @@ CLAIMS = {
     "C13": ("Theorems over the LTS: one result per finished chain, after any chain failure wait_timeout can never return Trace, abort() returns Ok((None,_)) only if no chain failed, returns answer the pending call, healthy chains unaffected. Tie: replay of event histories with injected faults (unrecoverable logp error at any evaluation, expand failure, model construction failure, all initial points bad). Three genuine defects repaired; one recorded known finding (unrecoverable error during a chain's initialisation is retried).", "3 C13"),
     "C16": ("Theorems for ALL struct declarations of the derive(Storable) model (first-matching-arm semantics, names/get_all alignment under NoDup and no flattened Option, refutations for the excluded cases), macro table equal to the one extracted from the current nuts-derive source, the six regenerated preset declarations well formed, presence rules (event-only, identifying fields, all-or-none, update reported once). Tie: translator regenerating the declarations from /repo on every run + schema/rows/presence correspondence over 576 preset x flag x dimension cases. One genuine defect repaired (duplicate tuning statistic).", "3 C16"),
     "C17": ("Theorems over the lane-generic kernel model: index partition for every length and lane count, element-wise kernels equal the plain formula over Q for every lane count, reductions equal the plain sums for every power-of-two lane count (1,2,4,8) fused or not, finiteness tests, NaN propagation on binary64; bit-exact correspondence of the binary64 instance with CpuMath for every length 0..=130 on this host's instruction set. Partial: the floating-point error bound itself is not proved, only the association order is pinned.", "3 C17"),
-    "C18": ("Theorems (pending integration of proofs) over model/Mclmc.v: ESH update keeps the unit norm, step/halving loop accounting, trajectory switch once; tie: correspondence of the step/halving state machine and of the ESH update with real MCLMC chains (delegating Math backend, density faults).", "3 C18"),
+    "C19": ("Theorems: serde round trip dec(enc v) = Some v for ALL well-formed type descriptions (no duplicate names, no nested Option) and typed values; the six preset type descriptions regenerated from the current source are well formed and carry no serde attribute; congruence (same settings, same chain); necessity of the finiteness / nested-Option hypotheses refuted by witnesses. Tie: translator regenerating the declarations from /repo on every run + correspondence of the model encoding with serde_json (tree and text), round trips through from_value/from_str, bitwise chain comparison, Zarr root attribute read-back.", "3 C19"),
+    "C18": ("Theorems over model/Mclmc.v: the ESH update has the closed-form norm and keeps the momentum on the unit sphere, the ln_1p argument is that norm minus one, a draw without divergence takes exactly num_base full-size steps, with retries the integration time is still num_base base steps and extra steps have factor < 1, halving depth bounded, divergence only with the budget exhausted, trajectory switch exactly once at the configured draw; tie: correspondence of the step/halving state machine and of the ESH update with real MCLMC chains (delegating Math backend, density faults).", "3 C18"),
 }
 ORDER = ["C%02d" % i for i in range(1, 20)]
 PENDING_REASON = "check not built yet in this round (work in progress; see DESIGN.md section 6 for the order)"
